@@ -194,9 +194,9 @@ fn c16_decode_of_encode_xor_mapped_v4() {
 
 // ---- C07: totality of the decoder, one harness per concrete length
 macro_rules! stun_total {
-    ($name:ident, $n:expr) => {
+    ($name:ident, $n:expr, $u:expr) => {
         #[kani::proof]
-        #[kani::unwind(40)]
+        #[kani::unwind($u)]
         fn $name() {
             let b: [u8; $n] = kani::any();
             let r = decode_stun_message(&b);
@@ -204,12 +204,12 @@ macro_rules! stun_total {
         }
     };
 }
-stun_total!(c07_stun_decode_0, 0);
-stun_total!(c07_stun_decode_19, 19);
-stun_total!(c07_stun_decode_20, 20);
-stun_total!(c07_stun_decode_24, 24);
-stun_total!(c07_stun_decode_28, 28);
-stun_total!(c07_stun_decode_32, 32);
+stun_total!(c07_stun_decode_0, 0, 14);
+stun_total!(c07_stun_decode_19, 19, 14);
+stun_total!(c07_stun_decode_20, 20, 14);
+stun_total!(c07_stun_decode_24, 24, 14);
+stun_total!(c07_stun_decode_28, 28, 14);
+stun_total!(c07_stun_decode_32, 32, 16);
 
 /// decode of a 24-byte message = header + ONE attribute header: a zero-length attribute in the
 /// last four bytes is still visited (USE-CANDIDATE is exactly such an attribute)
